@@ -12,7 +12,7 @@ def run(res, ctx):
     if "depth" in ctx["opts"]:
         args = ["--depth", ctx["opts"]["depth"]]
     if tier == "quick":
-        runner.run_harness(res, SRC, "asan", tier, args=args, deadline=240, timeout=900, shards=40, **KW)
+        runner.run_harness(res, SRC, "asan", tier, args=args, deadline=480, timeout=1200, shards=40, **KW)
     else:
         runner.run_harness(res, SRC, "asan", tier, args=args, deadline=2400, timeout=3600, shards=64, **KW)
 
